@@ -100,6 +100,22 @@ func runC08(c *Ctx) {
 	c.rule("E9", "exported functions taking pattern strings never report success without having compiled them: an invalid pattern is rejected even when there is nothing to do", 8)
 	c.rule("E4", "exported functions taking pattern strings compile them (error → error exit) before their first mutating effect", 8)
 
+	c.rule("E11", "what lies beneath an excluded entry is not reached through a symbolic link elsewhere in the tree: in the removal call graph every descent is preceded by the Lstat link test of its path (the obligation C04/N1, over the pattern-carrying removal)", 3)
+	{
+		var roots []*ssa.Function
+		for _, n := range c04Roots {
+			if f := c.fn(fsPkgRel, n); f != nil {
+				roots = append(roots, f)
+			}
+		}
+		var fns []*ssa.Function
+		for f := range c.reachable(roots, false, inPkg(fsPkgRel)) {
+			fns = append(fns, f)
+		}
+		sortFuncs(fns)
+		c.c04DescentRule("E11", fns, func(f *ssa.Function) bool { return c04Descents[outermost(f).Name()] })
+	}
+
 	c.c08CompileEach()
 	c.patternLoopsComplete("E7")
 	s := &c08State{c: c, eff: c.computeEffects(), E: map[*ssa.Function][]int{}}
